@@ -50,7 +50,10 @@ def opened(level, lines, pixels, rpc, vseed):
     spec = common.spec_from(case)
     files, info = product.build_product(spec)
     prod = harness.Materialised(files, "memory").__enter__()  # kept for the process lifetime
-    tree = harness.open_tree(prod.url, records_per_chunk=rpc, use_cache=False)
+    try:
+        tree = harness.open_tree(prod.url, records_per_chunk=rpc, use_cache=False)
+    except Exception as e:  # noqa: BLE001 - an ordinary product must open
+        raise harness.SetupViolation(harness.disc("exception", "open_alos2 of the image under selection", "a tree", harness.exc_text(e))) from e
     iinfo = info["images"][0]
     da = tree["imagery/HH"]["data"]
     words = c01.expected_words(iinfo)
